@@ -12,7 +12,7 @@ open Sigc.Model
 
 /-- the initial states of the two interpreters are related -/
 theorem init_related : R ({} : St) ({ k1 := true, k2 := true } : Spec.LSt) :=
-  ⟨rfl, rfl, rfl, .nil, .nil, .nil, rfl, .nil, rfl, rfl, rfl, .nil, rfl, rfl⟩
+  ⟨rfl, rfl, rfl, .nil, .nil, .nil, rfl, .nil, rfl, rfl, rfl, rfl, .nil, rfl, rfl⟩
 
 /-- **stage 1 — every operation that runs no user code is simulated**: for related states (`R`), with
     the model state satisfying the all-history invariant `Emit.Inv` and `Quiet` (no emission in progress
@@ -45,6 +45,11 @@ theorem refines_state (fuel : Nat) (P : Prog) (s : St) (h : Model.runTop fuel P 
 example : ∀ fuel s, Model.runTop fuel exProg {} exProg.top = some s →
     ∃ t, Spec.runTop fuel exProg { k1 := true, k2 := true } exProg.top = some t ∧ R s t ∧ Emit.Inv s :=
   fun fuel s h => refines_state fuel exProg s h
+
+/-- the same for a program with a functor-owned signal object (`ownG`; the owned signal dies in `collect`) -/
+example : ∀ fuel s, Model.runTop fuel exProgG {} exProgG.top = some s →
+    ∃ t, Spec.runTop fuel exProgG { k1 := true, k2 := true } exProgG.top = some t ∧ R s t ∧ Emit.Inv s :=
+  fun fuel s h => refines_state fuel exProgG s h
 
 /-- **the refinement theorem**: for every fuel and program, if the mechanism model's run terminates
     in `s`, some run of the specification `S'` (`k1 := true, k2 := true`) terminates in a `t` whose
